@@ -181,6 +181,8 @@ def gen_history(seed, tier, prop, kinds_allowed):
         n = r.randint(24, 96)
     wide = thorough and kind in ('anova', 'nicv', 'snr', 'mia', 'ttacc') and r.random() < 0.05
     m = 64 if wide else _weighted(r, [(1, 1), (r.randint(2, 4), 4), (r.randint(5, 8), 2)])
+    if not wide and numba_kind and kind != 'tbuild' and rng.stream(seed, 'mwide').random() < 0.07:
+        m = rng.stream(seed, 'mwide2').randint(17, 35)     # more samples than worker threads: prange chunks hold several iterations
     # amplitudes up to the full range of the storage dtype: arithmetic done in the narrow trace dtype (a wrapped square, a truncated
     # sum) only shows on large sample values; exact_ok() below lowers the amplitude again where the sums would stop being exact
     full = {'uint8': 255, 'int8': 254, 'int16': 4094, 'float32': 1023, 'float64': 4095}[tdtype]
